@@ -89,6 +89,13 @@ def cases(tier, seed, ctx=None):
         for _ in range(rng.choice([1, 1, 2, 4])):
             conns.append([r, rng.choice([0, 1, len(r) // 2, len(r) - 3, len(r)]), rng.below(5)])
         yield ("life", [kind, conns, rng.below(2)], "loopback-k%d" % kind)
+    # clients that keep sending after their request is complete (more than the socket buffers hold) and then go away, while the
+    # server side has not answered yet (proxy with a silent upstream, slot still waiting) or has
+    for j in range(8 if tier == "quick" else 60):
+        kind = [3, 2, 3, 0][j % 4]
+        r = LREQ[kind] if kind != 2 else b"POST /slot HTTP/1.1\r\nContent-Length: 10\r\n\r\n0123456789"
+        conns = [[r, rng.choice([len(r), len(r) // 2]), rng.choice([5, 6]), rng.choice([70000, 140000, 400000])] for _ in range(rng.choice([1, 3]))]
+        yield ("life", [kind, conns, 0], "loopback-surplus-then-gone-k%d" % kind)
 
     # proxied connections torn down at every stage of the upstream exchange (family proxy: the harness deletes the HTTP
     # socket while the upstream socket is connecting, connected, mid-response or closed): ending them must not crash
